@@ -37,6 +37,23 @@ func suiteC02(c *ctx) {
 			Src: SrcSpec{Kind: "bufio", Buf: r.Pick([]int{16, 64, 4096}), Chunk: r.PickS([]string{"one", "one", "rand"}), Seed: r.U64(), Term: "eof"}, Ctor: "new", Reads: r.PickS([]string{"big", "k3", "rand"}), RSeed: r.U64()}
 		cases = append(cases, rc)
 	}
+	for i := 0; i < c.n(30); i++ {
+		// the same with a match of length 258 ending just past the edge (L), and units <literal><match 258>
+		// running up to the edge with the input split near its end (U)
+		kinds := "L"
+		if i%3 == 2 {
+			kinds = "U"
+		}
+		st := StreamSpec{Kind: "synth", Synth: &SynthSpec{Seed: r.U64(), Blocks: 3, Size: 0, Kinds: kinds}}
+		rc := &RCase{Prop: "C02", ID: fmt.Sprintf("C02-l%d", i), API: "flate", Stream: st, Cut: -1,
+			Src: SrcSpec{Kind: "bufio", Buf: r.Pick([]int{16, 64, 4096}), Chunk: r.PickS([]string{"one", "rand", "all", "tail"}), Seed: r.U64(), Term: "eof"}, Ctor: "new", Reads: r.PickS([]string{"big", "k3", "rand"}), RSeed: r.U64()}
+		if rc.Src.Chunk == "tail" {
+			b, _, _, _ := st.Materialize()
+			rc.Src.Chunk = fmt.Sprintf("at%d", max0(len(b)-r.Range(1, 16)))
+			rc.Src.Buf = 4096
+		}
+		cases = append(cases, rc)
+	}
 	for i := 0; i < c.n(48); i++ {
 		// a short block whose last literals and end-of-block code share one packed entry ends at the
 		// edge of the output window (one before .. two after); as the final block with a long suffix
@@ -169,6 +186,9 @@ func suiteC04(c *ctx) {
 		}
 		if i%9 == 7 {
 			s = StreamSpec{Kind: "synth", Synth: &SynthSpec{Seed: r.U64(), Blocks: 2, Size: (i / 9) % 2, Kinds: "B"}}
+		}
+		if i%9 == 1 {
+			s = StreamSpec{Kind: "synth", Synth: &SynthSpec{Seed: r.U64(), Blocks: 3, Size: 0, Kinds: []string{"L", "U"}[(i/9)%2]}}
 		}
 		if s.Kind == "synth" && s.Synth.Blocks > 50 {
 			s.Synth.Blocks = 300
@@ -507,7 +527,7 @@ func suiteC18(c *ctx) {
 		case 3:
 			// output crossing the edge of the decoder's window inside packed entries (also "literal +
 			// length 258" entries ending just past the edge), the source pausing at every byte
-			rc.Stream = StreamSpec{Kind: "synth", Synth: &SynthSpec{Seed: r.U64(), Blocks: 3, Size: i % 2, Kinds: "E"}}
+			rc.Stream = StreamSpec{Kind: "synth", Synth: &SynthSpec{Seed: r.U64(), Blocks: 3, Size: i % 2, Kinds: []string{"E", "L"}[(i/5)%2]}}
 			rc.Src = SrcSpec{Kind: "bufio", Buf: r.Pick([]int{16, 64, 4096}), Chunk: r.PickS([]string{"one", "rand", "all", "tail", "tail", "tail"}), Seed: r.U64(), Term: "eof"}
 			if rc.Src.Chunk == "tail" {
 				// two deliveries: everything but the last few bytes, then the rest
